@@ -337,4 +337,42 @@ func storm(idx int64, r *rand.Rand) {
 	}
 	rt.Count("storm_cases", 1)
 	rt.Distinct(fmt.Sprintf("storm|%v|%d", desc, seeds[0]))
+	addVsRemove(idx, lr)
+}
+
+// addVsRemove: on a predicate strategy, AddPartition(x) racing with RemovePartitionsMatching(y).  After both returned,
+// x must be there (its requests are admitted) and y must be gone (its requests match nothing and are refused).
+func addVsRemove(idx int64, lr *rand.Rand) {
+	mk := func(name string) *strategy.PredicatePartition {
+		return strategy.NewPredicatePartitionWithMetricRegistry(name, 1.0/32, func(ctx context.Context) bool { return keyOf(ctx) == name }, core.EmptyMetricRegistryInstance)
+	}
+	st, err := strategy.NewPredicatePartitionStrategyWithMetricRegistry([]*strategy.PredicatePartition{mk("base"), mk("y")}, 8, core.EmptyMetricRegistryInstance)
+	if err != nil {
+		panic(err)
+	}
+	for round := 0; round < 150; round++ {
+		x := mk("x")
+		bar := lin.NewBarrier(2)
+		var wg sync.WaitGroup
+		wg.Add(2)
+		var added, removedAny bool
+		go func() { defer wg.Done(); bar.Wait(); added = st.AddPartition(x) }()
+		go func() { defer wg.Done(); bar.Wait(); _, removedAny = st.RemovePartitionsMatching(ctxKey("y")) }()
+		wg.Wait()
+		rt.Count("storm_add_vs_remove_rounds", 1)
+		tx, okx := st.TryAcquire(ctxKey("x"))
+		ty, oky := st.TryAcquire(ctxKey("y"))
+		if !added || !removedAny || !okx || oky {
+			rt.Violation("C03/predicate/partition-set-wrong-after-concurrent-add-and-remove", idx, rt.J{"round": round, "AddPartition(x)_returned": added,
+				"RemovePartitionsMatching(y)_found": removedAny, "request_for_x_admitted": okx, "request_for_y_admitted": oky, "strategy": st.String()})
+			return
+		}
+		tx.Release()
+		if ty != nil {
+			ty.Release()
+		}
+		// restore: y back, x away
+		st.RemovePartitionsMatching(ctxKey("x"))
+		st.AddPartition(mk("y"))
+	}
 }
